@@ -176,13 +176,13 @@ def mat_seq(items):
     return [mat_set(it['config'], it.get('cwd')) for it in items]
 
 
-def mat_overwrite(config, dir_a, dir_b):
+def mat_overwrite(config, dir_a, dir_b, mappings=False):
     """In THIS process: materialize in dir_a; overwrite the data files of dir_a with those of dir_b (same names: the same
     mapping over another table); materialize again.  Returns both results."""
     import shutil as _sh
     r1 = mat_set(config, dir_a)
     for fn in os.listdir(dir_b):
-        if not fn.endswith(('.ttl', '.ini')):
+        if not fn.endswith(('.ttl', '.ini')) or (mappings and not fn.endswith('.ini')):      # mappings=True: the mapping files are rewritten too
             _sh.copy(os.path.join(dir_b, fn), os.path.join(dir_a, fn))
     r2 = mat_set(config, dir_a)
     return [r1, r2]
